@@ -46,6 +46,13 @@ def __contains__(self, n):
         return n in self._node
     except TypeError:
         return False
+
+def nbunch_iter(self, nbunch=None):
+    if nbunch is None:
+        return iter(self._adj)
+    if nbunch in self:
+        return iter([nbunch])
+    return iter([n for n in nbunch if n in self._adj])
 '''
 
 
@@ -343,6 +350,10 @@ def b_len(interp, argv, kwv, fr):
         return b_len(interp, [interp.esc_target(v)], kwv, fr)
     if v.kind == 'path':
         return VInt(v.w.PL(v.c))
+    if v.kind == 'nodedict':
+        from .loops import VBag
+        NodeIn = v.g['NodeIn']
+        v = VBag([Node], lambda a: NodeIn[a], lambda a: VNode(a), note='nodes')
     if v.kind == 'row' or (v.kind == 'bag' and len(v.sorts) == 1):
         # len of a collection that holds each member once: its cardinality, an uninterpreted non-negative integer remembered together
         # with the membership predicate (trusted counting lemma: equal membership => equal cardinality; contracts compare memberships)
